@@ -155,6 +155,10 @@ func ruleFuncValuesOfCorrectType(observers *Events, addError AddErrFunc, disable
 
 						isVariable := fieldValue.Kind == ast.Variable
 						if isVariable {
+							if fieldValue.VariableDefinition == nil {
+								// undefined variable, or a fragment validated outside an operation
+								return
+							}
 							variableName := fieldValue.VariableDefinition.Variable
 							isNullableVariable := !fieldValue.VariableDefinition.Type.NonNull
 							if isNullableVariable {
